@@ -257,7 +257,8 @@ _reg("max", "agg", _max_s, _max_a, 1)
 _reg("list", "agg", lambda S, F, P: builtins.list(S[0]), lambda S, F, P: A.list(S[0]))
 _reg("tuple", "agg", lambda S, F, P: builtins.tuple(S[0]), lambda S, F, P: A.tuple(S[0]))
 _reg("set", "agg", lambda S, F, P: builtins.set(S[0]), lambda S, F, P: A.set(S[0]))
-_reg("dict", "agg", lambda S, F, P: builtins.dict(S[0]), lambda S, F, P: A.dict(S[0]))
+_reg("dict", "agg", lambda S, F, P: builtins.dict(S[0], **P.get("kwargs", {})),
+     lambda S, F, P: A.dict(S[0], **P.get("kwargs", {})))
 _reg("sorted", "agg", lambda S, F, P: builtins.sorted(S[0], **_kr(F, P)), lambda S, F, P: A.sorted(S[0], **_kr(F, P)), 1)
 _reg("reduce", "agg", _reduce_sync, _reduce_async, 1)
 _reg("nlargest", "agg", _nl_s, _nl_a, 1)
